@@ -37,6 +37,9 @@ class Ev(DSGEvaluator):
         for k, m in enumerate(sorted(metric_nodes, key=lambda n: n.name)):
             if self.mode == 'partial' and k % 2 == 1:
                 continue
+            if self.mode == 'zero':      # exact zeros, negative values and -0.0 are values like any other
+                out[m] = (0., -3.5, -0.)[k % 3]
+                continue
             out[m] = math.nan if self.mode == 'nan' else 100. + int(m.name[1:])
         return out
 
@@ -99,7 +102,7 @@ def check_graph(ctx, rep, spec):
             except Exception as e:
                 rep.count('decode-exc:' + type(e).__name__)
                 continue
-            for mode in ('complete', 'partial', 'nan'):
+            for mode in ('complete', 'partial', 'nan', 'zero'):
                 gp.mode = mode
                 inst_m = inst.copy()
                 vals = gp._evaluate(inst_m, inst_m.metric_nodes)
